@@ -169,6 +169,13 @@ fn run_history(h: &E2eHistory, c03: bool, runner: crate::fullrun::Runner, obs: &
         .map(|i| NAME_POOL[*i as usize % NAME_POOL.len()].to_string())
         .collect();
     let fake = Arc::new(Mutex::new(FakeJunos::new("bgpfu")));
+    {
+        let seed = crate::props::c01::seed_config(&h.history, &names);
+        if !seed.policies.is_empty() {
+            obs.class("starts-from-a-preinstalled-state");
+            fake.lock().unwrap().ephemeral = seed;
+        }
+    }
     for r in 0..h.history.runs.len() {
         let (stmts, db, exprs) = world(h, r, &names);
         let down = h.irr_down.get(r).copied().unwrap_or(false);
@@ -447,7 +454,7 @@ impl Prop for C11Agent {
     }
     fn rule(&self) -> String {
         "the databases and expressions of part `evaluator` (plus an as-set the database does not \
-         know); one to three managed policies each carry an expression, the real agent runs once against fake IRRd + fake Junos, and the route-filters \
+         know); one to three managed policies each carry an expression, the real agent runs once (in half of the cases after a first run against an older state of the IRR in which every AS has half of its routes) against fake IRRd + fake Junos, and the route-filters \
          installed in the fake Junos must denote exactly the RPSL set (IPv4 / IPv6 partition \
          included); when the evaluation has to fail nothing may be installed. Non-trivial = a \
          non-empty set was installed; distinct by (database, expression)"
@@ -488,6 +495,24 @@ impl Prop for C11Agent {
             .enumerate()
             .map(|(i, e)| Stmt::managed(&format!("fltr-x{i}"), &e.text()))
             .collect();
+        // in half of the cases a first run against an older state of the IRR (every AS with only
+        // the first half of its routes) has already installed something: "installs exactly that
+        // set" must hold for an update as well as for a first installation
+        if case.spec.chunk % 2 == 1 || case.exprs.len() == 2 {
+            let mut older = case.spec.db.clone();
+            for (v4, v6) in older.routes.values_mut() {
+                v4.truncate(v4.len() / 2);
+                v6.truncate(v6.len() / 2);
+            }
+            if let Ok(old_irrd) = FakeIrrd::start(older, 0) {
+                let first = full_run(&fake, ("127.0.0.1", old_irrd.port), "bgpfu");
+                obs.class(if first.is_ok() {
+                    "second-run-after-an-older-irr-state"
+                } else {
+                    "second-run-after-a-failed-first-run"
+                });
+            }
+        }
         let result = full_run(&fake, ("127.0.0.1", irrd.port), "bgpfu");
         let after = fake.lock().unwrap().ephemeral.clone();
         if !result.is_ok() {
